@@ -29,6 +29,10 @@ def infer_family(pid, tier, chk=None):
                      "seeded random nested inputs; non-trivial = a %s clause had a true antecedent; distinct by event content"
                      % (len(beh), n_random, pid))
     chk.validate("Trace_Infer", traces, inputs)
+    if not quick and pid in ("C01", "C02", "C08", "C13"):
+        t2, i2 = suite_traces(chk, ("Generate",))
+        chk.rules.append("%d generate() calls made by the repository's own test-suite, recorded with harness/pytest_j2m.py" % len(t2))
+        chk.validate("Trace_Infer", t2, i2, shard=50)
     return chk
 
 
@@ -81,10 +85,22 @@ def registry_family(pid, tier, chk=None):
     quick = tier == "quick"
     n_random = 400 if quick else 5000
     cases = registry_cases(chk, n_random)
+    mcr = DR.mc_registry(chk, "tiny1" if quick else "tiny2", emit=True)
+    chk.exhaustive_parts.append("MC_Registry: registry pipeline over every input of universe %s x 4 policies (%d inputs)" % ("tiny1" if quick else "tiny2", len(mcr)))
+    if not quick:
+        DR.mc_registry(chk, "full1", emit=False)
+        chk.exhaustive_parts.append("MC_Registry: universe full1 (every single sample with two nested objects over x, y, f) x 4 policies")
+        chk.rng.shuffle(mcr)
+        mcr = mcr[:4000]
+    cases = mcr + cases
     traces, inputs = DR.registry_traces(pid, chk, cases)
-    chk.rules.append("%d seeded random nested inputs x merge policies through the real ModelRegistry "
-                     "(generate, process_meta_data, merge_models, second optimise pass)" % n_random)
+    chk.rules.append("%d TLC-enumerated inputs of MC_Registry + %d seeded random nested inputs x merge policies through the real ModelRegistry "
+                     "(generate, process_meta_data, merge_models, second optimise pass)" % (len(mcr), n_random))
     chk.validate("Trace_Registry", traces, inputs, shard=25)
+    if not quick and pid in ("C05", "C08"):
+        t2, i2 = suite_traces(chk, ("MergeModels",))
+        chk.rules.append("%d merge_models() calls made by the repository's own test-suite" % len(t2))
+        chk.validate("Trace_Registry", t2, i2, shard=25)
     return chk
 
 
@@ -225,7 +241,58 @@ def order_family(chk, tier):
     chk.validate("Trace_Order", t1 + t2, dict(i1, **i2), shard=20)
 
 
+def replay_case(pid, path):
+    """./check <ID> --replay FILE : re-execute the stored concrete case on the current tree (where the family allows it),
+    validate the fresh trace with TLC under the same claim, report the verdict.  Exit 1 if it still fails."""
+    import json as _json
+    case = _json.load(open(path))
+    module, inp, trace = case.get("module"), case.get("input") or {}, case["trace"]
+    chk = Check(pid, "quick")
+    fresh = None
+    try:
+        if module == "Trace_Infer" and "samples" in inp and "dkf" not in inp:
+            if pid == "C07":
+                t, _ = DI.traces_for(pid, [], chk, 0)
+            fresh = {"id": trace["id"], "events": [DI.generate_event(inp["samples"], inp.get("env", {}))]}
+        elif module == "Trace_Infer" and "dkf" in inp:
+            fresh = {"id": trace["id"], "events": DC.cli_generate_events(inp["samples"], inp["dkf"], inp["dkr"])}
+        elif module == "Trace_Registry" and "roots" in inp:
+            roots = [(r[0], r[1]) for r in inp["roots"]]
+            pol = [tuple(x) if x[0] != "table" else ("table", [tuple(map(tuple, pr)) for pr in x[1]]) for x in inp["policy"]]
+            t, _ = DR.registry_traces(pid, chk, [(roots, inp.get("env", {}), pol, "replay")])
+            fresh = dict(t[0], id=trace["id"])
+        elif module == "Trace_Module" and "roots" in inp:
+            c = dict(inp, roots=[(r[0], r[1]) for r in inp["roots"]], policy=[tuple(x) for x in inp["policy"]])
+            c.pop("texts", None)
+            t, _ = DM.module_traces(pid, chk, [c])
+            fresh = dict(t[0], id=trace["id"])
+        elif module == "Trace_Cli" and "plan" in inp:
+            opt = next((o for o in DC.OPTION_SETS if o["argv"] == inp.get("opt")), DC.OPTION_SETS[0])
+            evs, _ = DC.run_plan(inp["plan"], opt, chk.rng, inp.get("fmt", "json"), sub=True)
+            fresh = {"id": trace["id"], "events": evs}
+    except Exception as e:
+        print("NOTE replay: could not re-execute (%s); validating the stored trace" % e)
+    how = "re-executed on the current tree" if fresh else "stored trace (this family is re-validated, not re-executed)"
+    extra = {}
+    kw = {}
+    if module == "Trace_Session":
+        K, F, _ = DSS.measure()
+        kw = dict(extra_constants=DSS.TRACE_CONSTS, batch_extra={"threads": ["t%d" % k for k in range(1, 9)], "K": K, "F": F})
+    if module == "Trace_StrTypes":
+        print("NOTE replay: Trace_StrTypes needs the corpus acceptance table; re-run ./check C09 instead")
+        return 2
+    v, _ = tlc.validate_traces(module, pid, [fresh or trace], **kw)
+    verdict = list(v.values())[0]
+    print("REPLAY %s %s: %s -> verdict %s (live %s)" % (pid, path, how, verdict["verdict"], verdict["live"]))
+    if verdict["verdict"] != "ok":
+        print("VIOLATION property=%s replay=%s clause=%s" % (pid, path, verdict["verdict"]))
+        return 1
+    return 0
+
+
 def run(pid, tier, replay=None):
+    if replay:
+        return replay_case(pid, replay)
     chk = Check(pid, tier)
     if pid in ("C01", "C02", "C07", "C08", "C13"):
         infer_family(pid, tier, chk)
@@ -290,3 +357,32 @@ def module_family(pid, tier, chk, n=None):
     traces, inputs = DM.module_traces(pid, chk, cases)
     chk.rules.append(what + " through the full pipeline; emitted text parsed, executed and introspected")
     chk.validate("Trace_Module", traces, inputs, shard=16)
+
+
+def suite_traces(chk, kinds):
+    """Run the repository's own test-suite with the recorder plugin and return its executions as traces."""
+    import json as _json, os as _os, subprocess as _sp, sys as _sys, tempfile as _tf
+    from .project import REPO
+    out = _tf.mktemp(prefix="j2m-suite-", suffix=".json")
+    env = dict(_os.environ, J2M_VERIF="1", J2M_TRACE_OUT=out, PYTHONPATH=_os.pathsep.join([tlc.VERIF, REPO]), PYTHONDONTWRITEBYTECODE="1")
+    p = _sp.run([_sys.executable, "-m", "pytest", "-q", "-p", "no:cacheprovider", "-p", "harness.pytest_j2m", "-x", "-q",
+                 "test/test_generator", "test/test_registry", "test/test_code_generation", "test/test_dynamic_typing", "test/test_cli/test_self_validate_pydantic.py"],
+                cwd=REPO, env=env, stdout=_sp.PIPE, stderr=_sp.STDOUT, text=True, timeout=1800)
+    if not _os.path.exists(out):
+        raise tlc.MachineryError("the repository's test-suite produced no trace file:\n" + p.stdout[-1500:])
+    evs = _json.load(open(out))
+    _os.unlink(out)
+    traces, inputs = [], {}
+    for i, e in enumerate(evs):
+        if e["ev"] not in kinds:
+            continue
+        tid = "suite%d" % i
+        test = e.pop("test", "")
+        if e["ev"] == "MergeModels":
+            e = [{"ev": "Begin"}, e]
+        else:
+            e = [e]
+        traces.append({"id": tid, "events": e})
+        inputs[tid] = {"from_repository_test": test}
+    chk.extra["repository_test_suite"] = {"pytest_tail": p.stdout.strip().splitlines()[-1:], "events_recorded": len(evs), "traces": len(traces)}
+    return traces, inputs
